@@ -292,13 +292,20 @@ def run(chk):
         elif res.status == "crashed":
             chk.correspondence_broken("PSyAD crashed instead of refusing: " + what, {"src": src}, "refused", res.exc)
     # the compiled harness: real-only argument lists (valid on the pinned tree) and mixed ones
-    hgen_real = G.KGen(rng, real_only=True, allow_unsafe=False, cond_on_reals=False)
-    hgen_mixed = G.KGen(rng, real_only=False, allow_unsafe=False, cond_on_reals=False)
-    for k in range(-1, n_harness):
+    hgen_real = G.KGen(rng, real_only=True, allow_unsafe=False, cond_on_reals=False, shift=5)
+    hgen_mixed = G.KGen(rng, real_only=False, allow_unsafe=False, cond_on_reals=False, shift=5)
+    k = -2
+    while dist["harness_run"] < n_harness + 1 and k < 5 * n_harness:
+        k += 1
         if chk.violations:
             break
         kern = HARNESS_PROBE if k < 0 else (hgen_real if k % 3 else hgen_mixed).kernel()
         res = R.pipeline(kern.src, kern.active, want_test=True)
+        if res.status == "crashed":
+            chk.violation({"src": kern.src, "active": kern.active, "kind": "failing-input", "clause": "harness",
+                           "observed": "generate_adjoint_str(create_test=True) crashed: " + str(res.exc),
+                           "expected": "generated harness compiles, runs, PASSED"})
+            continue
         if res.status != "ok":
             continue
         if k >= 0:
@@ -306,11 +313,11 @@ def run(chk):
             # these kernels depends on nothing else, so C19.safe under those values tells whether the run stays outside the
             # known-finding classes; kernels that do not are not compiled
             if res.tl_form is None:
-                dist["harness_skipped"] = dist.get("harness_skipped", 0) + 1
+                dist["harness_skipped_no_form"] = dist.get("harness_skipped_no_form", 0) + 1
                 continue
             hb = [[[res.names.id(n)], 1] for n in ("n1", "n2", "k1", "lg") if not kern.real_only]
             if _c19([sx(["safe", res.tl_form, hb])])[0] != "1":
-                dist["harness_skipped"] = dist.get("harness_skipped", 0) + 1
+                dist["harness_skipped_unsafe"] = dist.get("harness_skipped_unsafe", 0) + 1
                 continue
         status, outp = harness_verdict(kern, res)
         dist["harness_run"] += 1
